@@ -101,7 +101,8 @@ class DotRenderer:
         if not (name := hugr[hugr.root].metadata.get("name", None)):
             name = ""
 
-        graph = gv.Digraph(str(name), strict=False)
+        # the name is an identifier, never an HTML-like string
+        graph = gv.Digraph(gv.nohtml(str(name)), strict=False)
         graph.attr(**graph_attr)
 
         self._viz_node(hugr.root, hugr, graph)
